@@ -68,8 +68,12 @@ pub(crate) fn run() -> (Result<(), Error>, Option<StdinLogReader>) {
         let mut server;
         {
             let mut ptx = ProcessTransaction::new(&mut ps, TransactionBehavior::Immediate)?;
+            // The targets redo-unlocked builds out-of-band were found by the
+            // dependency check of the enclosing target, not declared by its
+            // script, so they must not be recorded as its dependencies.
             let f = if !ptx.state().env().target().as_os_str().is_empty()
                 && !ptx.state().env().is_unlocked()
+                && !ptx.state().env().is_no_oob()
             {
                 let mut me = PathBuf::new();
                 me.push(ptx.state().env().startdir());
